@@ -31,12 +31,15 @@ def gen_ord(rng, dbl):
             lines.append('aa %d' % (ns * rng.choice([2, 2, 3, 4]) - rng.choice([0, 0, 1, ns // 2]))); live += 1
         elif r < 0.80:
             lines.append('d %d' % rng.choice([0, 0, rng.randint(0, 50), max(0, live - 1)])); live = max(0, live - 1)
-        elif r < 0.95 and dbl:
+        elif r < 0.90 and dbl:
             lines.append('dbl %d' % rng.choice([0, 0, 1, rng.randint(0, 60), 10 ** 6 - 1]))
+        elif r < 0.95 and dbl:
+            # an array release whose first node is free (the nodes behind it may be free as well, or live)
+            lines.append('dbla %d %d' % (rng.choice([0, 1, rng.randint(0, 60), 10 ** 6 - 1]), rng.choice([2, 2, 3, 4])))
         else:
             lines.append('q')
     if dbl:
-        lines += ['dbl 0', 'dbl 1', 'dbl %d' % rng.randint(0, 40)]
+        lines += ['dbl 0', 'dbl 1', 'dbl %d' % rng.randint(0, 40), 'dbla %d 2' % rng.randint(0, 40), 'dbla 0 3']
     return '\n'.join(lines) + '\n'
 
 
@@ -101,10 +104,17 @@ def gen_pool(rng):
     lines = ['pool %s %d %d' % (pt, rng.choice([8, 16, 24, 64]), rng.choice([256, 1024, 4096]))]
     for _ in range(rng.randint(10, 60)):
         r = rng.random()
-        if r < 0.45:
+        if r < 0.40:
             lines.append('a')
-        elif r < 0.75:
+        elif r < 0.65:
             lines.append('d %d' % rng.randint(0, 30))
+        elif r < 0.75 and pt != 'small':
+            lines.append('aa %d' % rng.choice([2, 2, 3, 5]))
+        elif r < 0.83 and pt != 'small':
+            lines.append('da %d' % rng.randint(0, 10))
+        elif r < 0.90 and pt != 'small':
+            # deallocate_array a second time, earlier and latest released arrays
+            lines.append('dbla %d' % rng.choice([0, 10 ** 6 - 1, rng.randint(0, 10)]))
         else:
             lines.append('dbl %d' % rng.choice([0, 10 ** 6 - 1, rng.randint(0, 20)]))
     return '\n'.join(lines) + '\n'
@@ -121,14 +131,14 @@ def oracle(kind, log, cfgflags):
         lhs, rhs = [x.strip().split() for x in parts[0].split('=', 1)]
         if not lhs or not rhs or rhs[0] == 'skipped':
             continue
-        bad = (lhs[0] in ('dbl', 'bad', 'badfree'))
+        bad = (lhs[0] in ('dbl', 'dbla', 'bad', 'badfree'))
         if not bad:
             continue
         cls = rhs[0]
         covered = True
         if kind in ('ord', 'pool') or (kind == 'small' and len(rhs) > 1 and rhs[1].startswith('dbl')):
             covered = bool(dbl)
-        if kind == 'pool' and lhs[0] == 'dbl' and 'pool small' in log.split('\n')[0]:
+        if kind == 'pool' and lhs[0] in ('dbl', 'dbla') and 'pool small' in log.split('\n')[0]:
             covered = bool(dbl)
         if not ptr:
             covered = False
@@ -187,7 +197,7 @@ def run(ctx):
             div += len(r['div']); ctx.tie_broken.append('correspondence (%s, %s): %s' % (kind, c, r['div'][0][:300]))
         for ln in r['log'].split('\n'):
             t = ln.split('=', 1)
-            if len(t) == 2 and t[0].split()[:1] and t[0].split()[0] in ('dbl', 'bad', 'badfree'):
+            if len(t) == 2 and t[0].split()[:1] and t[0].split()[0] in ('dbl', 'dbla', 'bad', 'badfree'):
                 o = t[1].split()[0]
                 if o != 'skipped':
                     badcalls += 1; outcomes[kind + ':' + o] = outcomes.get(kind + ':' + o, 0) + 1
